@@ -9,7 +9,8 @@ calls in progress at once**, each with its own program counter, interleaved at b
 What a block *would* emit is part of the block (an arbitrary input: the theorems quantify over it);
 whether it *does* is decided by the generated gates (`Gen.Shutdown.*`).  The places where the close path
 can raise are explicit outcomes (`Out.raised`): `NotRunningException` out of `async_wait_for_start`
-(a close that was waiting for start-up while another close finished; an API call on a done instance) and
+(an API call on a done instance; and — only if `async_close` did not suppress it, which since fix 25230c1 it does —
+a close that was waiting for start-up while another close finished) and
 `CancelledError` (the task awaiting `async_close` is cancelled at one of its suspension points).
 No Mathlib (compiled into `zcdriver`). -/
 namespace Zc.Shutdown
@@ -164,6 +165,13 @@ def closeBody (h : Host) (sync : Bool) : Host × List Out × CStage :=
    if h.registry = 0 then [] else gated h [.goodbye],
    .unregistering (if h.registry = 0 then 0 else moreGoodbyes))
 
+/-- does a close that was parked in `wait_for(async_wait_for_start(), 1)` and is woken by the start-up event hand
+`NotRunningException` to its caller?  `async_wait_for_start` raises it when the event is no longer set or the
+instance is done (another close got there first); `async_close` lets it escape unless its `contextlib.suppress(...)`
+lists it.  (Before fix 25230c1 — finding D17 — it did not: `wakeRaises false …`.) -/
+def wakeRaises (suppressed running done : Bool) : Bool :=
+  Gen.Shutdown.wait_for_start_raises_after running done && !suppressed
+
 /-- `none`: the block is not enabled in this state (it cannot occur) -/
 def step (h : Host) : Block → Option (Host × List Out)
   | .recv sends queued defer updates =>
@@ -220,7 +228,7 @@ def step (h : Host) : Block → Option (Host × List Out)
         let r := closeBody h false
         some (r.1.setStage i false r.2.2, r.2.1)
       else if !h.running && !h.done then none   -- the event it waits for has not been set
-      else if Gen.Shutdown.wait_for_start_raises_after h.running h.done then
+      else if wakeRaises Gen.Shutdown.close_wait_suppresses_not_running h.running h.done then
         some (h.setStage i false .aborted, [.raised .notRunning])
       else
         let r := closeBody h false
